@@ -8,10 +8,12 @@ per-layout tables regenerated from /repo on every run: `Earverif/Gen/C13_Tables.
 import Earverif.Proofs.C13Zone
 import Earverif.Proofs.C13Lock
 import Earverif.Gen.C13_Tables
-import Mathlib.Analysis.Real.Sqrt
+import Earverif.Proofs.C13Real
+import Earverif.Proofs.C13CartLock
+import Earverif.Proofs.C13Polar
 
 namespace Earverif.C13
-open Earverif.Zone Earverif.Zone.Scalar Earverif.Zone.ScalarSqrt Earverif.Lock
+open Earverif.Zone Earverif.Zone.Scalar Earverif.Zone.ScalarSqrt Earverif.Lock Earverif.CartLock
 
 /-! ## 1. Priority-group structures and the downmix matrix -/
 
@@ -432,23 +434,6 @@ theorem screen_identity (e : Edges Rat)
 
 /-! ## 6. The zero laws hold in the reals; non-vacuity -/
 
-noncomputable instance : ScalarSqrt ℝ where
-  zero := 0
-  one := 1
-  ofNat n := (n : ℝ)
-  add := (· + ·)
-  sub := (· - ·)
-  mul := (· * ·)
-  div := (· / ·)
-  abs x := |x|
-  lt a b := decide (a < b)
-  le a b := decide (a ≤ b)
-  eq a b := decide (a = b)
-  eps6 := 1e-6
-  eps5 := 1e-5
-  sqrt := Real.sqrt
-  nanToNum x := x
-
 /-- The laws used by the zero-gain theorems hold over ℝ with `Real.sqrt`. -/
 theorem zero_laws_real : ZeroLaws ℝ where
   mul_zero x := by show x * 0 = (0 : ℝ); simp
@@ -483,5 +468,233 @@ example : scaleAzEl (⟨29, -29, -35 / 2, 35 / 2⟩ : Edges Rat) ⟨58, -58, -35
 -- the row extension that does not cover everything keeps the zone mask (0+7+0, M+000 only is left)
 example : alloExcluded (Gen.C13.L_0_7_0.allo.map p3Of) [true, true, false, true, true, true, true] =
     [true, true, false, true, true, true, true] := by decide +kernel
+
+/-! ## 7. The Cartesian path composed: zone mask → row extension → lock → allocentric panner -/
+
+/-- **The locked loudspeaker is never in the final exclusion mask.** In the composed Cartesian
+path the lock handler receives the *final* mask (`allocentric.get_excluded` of the zone mask),
+so whenever it locks, the chosen loudspeaker `i` is a loudspeaker of the layout that the panner
+keeps (`positions[~excluded]` contains it) — it actually receives the gain.  Any scalar type. -/
+theorem cart_lock_target_not_excluded {α : Type} [GainCalc.Scalar α] [ScalarSqrt α] (fuel : Nat)
+    (spks : List (Spk α)) (allo : List (P3 α)) (prio : List Nat) (zones : List (Zone α)) (p : P3 α)
+    (lock : Option (Option α)) (gain diffuse : α) (final : List Bool) (i : Nat) (out : List α × List α)
+    (h : renderCartLock fuel spks allo prio zones p lock gain diffuse = some (final, .locked i, out)) :
+    ∃ zmask, getExcluded fuel spks zones = some zmask ∧ final = alloExcluded allo zmask ∧
+      lockHandle true allo prio final p lock = .locked i ∧ i < allo.length ∧ isExcl final i = false := by
+  unfold renderCartLock at h
+  cases h1 : getExcluded fuel spks zones with
+  | none => simp [h1] at h
+  | some zmask =>
+    simp only [h1, Option.bind_some] at h
+    cases h2 : lockedPosition allo p (lockHandle true allo prio (alloExcluded allo zmask) p lock) with
+    | none => simp [h2] at h
+    | some q =>
+      simp only [h2, Option.bind_some] at h
+      cases h3 : speakerTree (keep (alloExcluded allo zmask) allo) with
+      | none => simp [h3] at h
+      | some st =>
+        simp only [h3, Option.bind_some] at h
+        cases h4 : GainCalc.alloHandle (keep (alloExcluded allo zmask) allo).length st q.x q.y q.z with
+        | none => simp [h4] at h
+        | some g =>
+          simp only [h4, Option.bind_some, Option.some.injEq, Prod.mk.injEq] at h
+          obtain ⟨hf, hl, _⟩ := h
+          subst hf
+          have hv := lock_index_valid true allo prio (alloExcluded allo zmask) p lock i hl
+          exact ⟨zmask, rfl, rfl, hl, hv.1, hv.2⟩
+
+/-- **The allocentric panner is exact at every loudspeaker, for every set of pairwise distinct
+positions**: `_speaker_tree` never asserts on them and `AllocentricPanner(positions).handle` at
+`positions[k]` returns `e_k` (each balance pan sees an exact key match and returns (1, 1) on the
+single plane / row / column).  This covers the grids of the ten layouts and of every subset
+`positions[~excluded]` of them. -/
+theorem allo_exact_at_speaker (ps : List (P3 ℝ)) (hd : Distinct ps) (k : Nat) (c : P3 ℝ) (hk : ps[k]? = some c) :
+    ∃ st, speakerTree ps = some st ∧
+      GainCalc.alloHandle ps.length st c.x c.y c.z = some ((List.replicate ps.length (0 : ℝ)).set k 1) := by
+  obtain ⟨st, hst, hts, hm⟩ := speakerTree_spec ps hd
+  refine ⟨st, hst, ?_⟩
+  have hl : (⟨k, c.x, c.y, c.z⟩ : GainCalc.Leaf ℝ) ∈ leaves st := (hm _).mpr ⟨k, c, hk, rfl⟩
+  exact alloHandle_at ps.length st hts ⟨k, c.x, c.y, c.z⟩ hl
+
+/-- **Cartesian channel lock: exactly one loudspeaker, no panner hypothesis.** Whenever the
+composed Cartesian path locks (with or without `maxDistance`, with any zone list), the rendered
+gains are those of the unit vector of the locked loudspeaker `i`: direct `gain·√(1−diffuse)`
+and diffuse `gain·√diffuse` at `i`, exactly 0 everywhere else — and `i` is not excluded.
+Hypotheses: the allocentric positions are pairwise distinct (table obligation
+`tables_allo_ok`) and there is one nominal position per allocentric position. -/
+theorem cart_lock_one_speaker (fuel : Nat) (spks : List (Spk ℝ)) (allo : List (P3 ℝ)) (prio : List Nat)
+    (zones : List (Zone ℝ)) (p : P3 ℝ) (lock : Option (Option ℝ)) (gain diffuse : ℝ)
+    (final : List Bool) (i : Nat) (d f : List ℝ)
+    (hdist : Distinct allo) (hlen : spks.length = allo.length)
+    (h : renderCartLock fuel spks allo prio zones p lock gain diffuse = some (final, .locked i, (d, f))) :
+    isExcl final i = false ∧ i < allo.length ∧
+    d = ((List.replicate allo.length (0 : ℝ)).set i 1).map (fun v => v * gain * Real.sqrt (1 - diffuse)) ∧
+    f = ((List.replicate allo.length (0 : ℝ)).set i 1).map (fun v => v * gain * Real.sqrt diffuse) := by
+  obtain ⟨zmask, hz, hfin, hl, hi, hex⟩ :=
+    cart_lock_target_not_excluded fuel spks allo prio zones p lock gain diffuse final i (d, f) h
+  have hzl : zmask.length = allo.length := by rw [getExcluded_length fuel spks zones zmask hz, hlen]
+  have hfl : final.length = allo.length := by rw [hfin, alloExcluded_length allo zmask hzl.symm, hzl]
+  have hfi : final[i]? = some false := isExcl_false_getElem? final i (by omega) hex
+  have hq : allo[i]? = some allo[i] := List.getElem?_eq_getElem hi
+  -- the panner's grid: positions[~final]
+  have hsubd : Distinct (keep final allo) := distinct_keep final allo hdist
+  have hsubk : (keep final allo)[rank final i]? = some allo[i] := keep_getElem final allo i _ hfi hq
+  have hsubl : (keep final allo).length = countF final := keep_length final allo hfl
+  obtain ⟨st, hst, hpan⟩ := allo_exact_at_speaker (keep final allo) hsubd (rank final i) allo[i] hsubk
+  unfold renderCartLock at h
+  simp only [hz, Option.bind_some, ← hfin, hl, lockedPosition, hq, hst, hpan, Option.some.injEq, Prod.mk.injEq,
+    true_and] at h
+  rw [hsubl] at h
+  obtain ⟨h1, h2⟩ := renderCart_unit final i hfi gain diffuse
+  rw [hfl] at h1 h2
+  refine ⟨hex, hi, ?_, ?_⟩
+  · rw [← h1, h]
+  · rw [← h2, h]
+
+/-- **Table obligation.** For each of the ten layouts the allocentric positions are pairwise
+distinct, and the model's `_speaker_tree` on them (exact rational arithmetic) reproduces the
+grid the real `AllocentricPanner` built (regenerated on every run). -/
+theorem tables_allo_ok :
+    Gen.C13.layouts.all (fun L =>
+      distinctB (L.allo.map p3Of) &&
+      ((speakerTree (L.allo.map p3Of)).map fun t => t.map fun pl => pl.map fun row => row.map (·.idx)) == some L.tree)
+      = true := by
+  decide +kernel
+
+/-- `allo_exact_at_speaker` instantiated with the regenerated tables: on every layout the panner
+at loudspeaker `k`'s allocentric position answers `e_k`. -/
+theorem allo_exact_at_speaker_layouts (L : Gen.C13.Layout) (hL : L ∈ Gen.C13.layouts) (k : Nat) (c : P3 ℝ)
+    (hk : ((L.allo.map p3Of).map castP3)[k]? = some c) :
+    ∃ st, speakerTree ((L.allo.map p3Of).map castP3) = some st ∧
+      GainCalc.alloHandle ((L.allo.map p3Of).map castP3).length st c.x c.y c.z =
+        some ((List.replicate ((L.allo.map p3Of).map castP3).length (0 : ℝ)).set k 1) := by
+  have h := tables_allo_ok
+  rw [List.all_eq_true] at h
+  have hLk := h L hL
+  simp only [Bool.and_eq_true] at hLk
+  exact allo_exact_at_speaker _ (distinct_cast _ hLk.1) k c hk
+
+/-! ## 8. Cartesian screen scaling: `compensate_position` -/
+
+/-- `np.interp` on a table whose `yp` equals its `xp` is the identity inside the table. -/
+theorem interp4_identity (a b c d x : Rat) (_hab : a ≤ b) (_hbc : b ≤ c) (_hcd : c ≤ d) (hax : a ≤ x) (hxd : x ≤ d) :
+    interp4 a b c d a b c d x = x := by
+  unfold interp4 interp4.seg
+  simp only [rat_lt, rat_le, rat_eq, rat_add, rat_sub, rat_mul, rat_div]
+  grind
+
+/-- Layouts without U+045: `compensate_position` does nothing, so the Cartesian `screenRef` path is
+`point_polar_to_cart ∘ scale_az_el ∘ point_cart_to_polar` (the conversions are C19's subject). -/
+theorem compensate_identity_without_U045 {α : Type} [Scalar α] (az el : α) :
+    compensatePosition false az el = (az, el) := rfl
+
+/-- Layouts with U+045: at elevation 0 (and 90) the compensation table is the identity table, so
+azimuths in [−180, 180] are unchanged; the elevation is never changed. -/
+theorem compensate_identity_at_el0 (az : Rat) (h1 : -180 ≤ az) (h2 : az ≤ 180) :
+    compensatePosition true az 0 = (az, 0) ∧ compensatePosition true az 90 = (az, 90) := by
+  have e0 : interp3 (0 : Rat) 30 90 30 (30 * (30 / 45)) 30 0 = 30 := by decide +kernel
+  have e90 : interp3 (0 : Rat) 30 90 30 (30 * (30 / 45)) 30 90 = 30 := by decide +kernel
+  have k := interp4_identity (-180) (-30) 30 180 az (by decide +kernel) (by decide +kernel) (by decide +kernel) h1 h2
+  have c0 : ((0 : Nat) : Rat) = 0 := rfl
+  have c30 : ((30 : Nat) : Rat) = 30 := rfl
+  have c45 : ((45 : Nat) : Rat) = 45 := rfl
+  have c90 : ((90 : Nat) : Rat) = 90 := rfl
+  have c180 : ((180 : Nat) : Rat) = 180 := rfl
+  have n180 : (0 : Rat) - 180 = -180 := by grind
+  have n30 : (0 : Rat) - 30 = -30 := by grind
+  constructor
+  · simp only [compensatePosition, ↓reduceIte, rat_ofNat, rat_sub, rat_zero, rat_mul, rat_div, c0, c30, c45, c90,
+      c180, e0, n180, n30, k]
+  · simp only [compensatePosition, ↓reduceIte, rat_ofNat, rat_sub, rat_zero, rat_mul, rat_div, c0, c30, c45, c90,
+      c180, e90, n180, n30, k]
+
+/-- … and it is not the identity in between: at elevation 30 the ±30° table points move to ±20°. -/
+example : compensatePosition true (30 : Rat) 30 = (20, 30) := by decide +kernel
+
+-- Non-vacuity of `cart_lock_one_speaker` / `cart_lock_target_not_excluded`: `renderCartLock` over ℝ is not
+-- computable (`Real.sqrt`); the same definition runs over `Float` in the driver, where the correspondence
+-- observes hundreds of inputs per run on which it locks (evidence keys "render cart+lock … -> locked") and
+-- agrees with the real renderer.  The hypotheses `Distinct` / equal lengths are discharged for the ten layouts
+-- by `tables_allo_ok` and `tables_groups_ok`.
+
+/-! ## 9. Polar channel lock composed with the C05 point-source panner -/
+
+/-- a position as the C05 model's vector -/
+def vec3 (p : P3 ℝ) : PointSource.Vec3 ℝ := (p.x, p.y, p.z)
+
+/-- **Table obligation, reused from C05 by import** (`PointSource.tables_wellFormed`): in every
+regenerated layout each loudspeaker of the inner panner is a vertex of at least one region. -/
+theorem polar_tables_every_speaker_is_vertex :
+    Earverif.Gen.C05.layouts.all PointSource.RawLayout.covered = true := by
+  have h := PointSource.tables_wellFormed
+  rw [List.all_eq_true] at h ⊢
+  intro l hl
+  have := h l hl
+  simp only [PointSource.RawLayout.wellFormed, Bool.and_eq_true] at this
+  exact this.1.1.2
+
+/-- **`_partial`: polar lock, first accepting region a triplet.** The polar lock handler locks
+to loudspeaker `i` (a non-excluded loudspeaker of the layout: `lock_index_valid`).  *Remaining
+hypothesis:* the first region of the panner that accepts the direction of loudspeaker `i` is a
+triplet (invertible, distinct channels) that has `i` as a vertex at exactly that position.
+Then `PointSourcePanner.handle` returns exactly `e_i` (C05 `triplet_exact_at_vertex`).  Not
+proved here: that hypothesis for the real region lists (every loudspeaker *is* a vertex of some
+region — `polar_tables_every_speaker_is_vertex` — but that the *first accepting* one is such a
+region depends on the facet geometry), the downmix wrappers (0+2+0, virtual loudspeakers) and
+float rounding (residues ~1e-17). -/
+theorem polar_lock_one_speaker_partial
+    (regions : List (PointSource.Region ℝ)) (n : Nat) (roots : Nat → Option ℝ × Option ℝ)
+    (pos : List (P3 ℝ)) (prio : List Nat) (excluded : List Bool) (p : P3 ℝ) (maxD : Option ℝ) (i : Nat)
+    (h : lockHandle false pos prio excluded p (some maxD) = .locked i)
+    (k : Nat) (hk : k < regions.length) (c0 c1 c2 : Nat) (P : PointSource.Mat3 ℝ)
+    (hreg : regions[k] = .triplet [c0, c1, c2] P) (hdet : PointSource.det3 P ≠ 0)
+    (d01 : c0 ≠ c1) (d02 : c0 ≠ c2) (d12 : c1 ≠ c2) :
+    ∃ c, pos[i]? = some c ∧ isExcl excluded i = false ∧
+      ((∀ j, ∀ hj : j < k, regions[j].handle (roots j) (vec3 c) = none) →
+       ((c0 = i ∧ P.1 = vec3 c) ∨ (c1 = i ∧ P.2.1 = vec3 c) ∨ (c2 = i ∧ P.2.2 = vec3 c)) →
+       PointSource.PointSourcePanner.handle regions n roots (vec3 c) = some ((List.replicate n (0 : ℝ)).set i 1)) := by
+  obtain ⟨hi, hex⟩ := lock_index_valid false pos prio excluded p (some maxD) i h
+  refine ⟨pos[i], List.getElem?_eq_getElem hi, hex, ?_⟩
+  intro hpre hvert
+  obtain ⟨e1, e2, e3⟩ := PointSource.triplet_exact_at_vertex P hdet
+  obtain ⟨s1, s2, s3⟩ := scatter_triplet_unit n c0 c1 c2 d01 d02 d12
+  apply panner_first_accept regions n roots (vec3 pos[i]) k hk _ hpre
+  rw [hreg]
+  simp only [PointSource.Region.channels, PointSource.Region.handle, PointSource.remap]
+  rcases hvert with ⟨rfl, hv⟩ | ⟨rfl, hv⟩ | ⟨rfl, hv⟩
+  · rw [← hv, e1]; simp [PointSource.vecList, s1]
+  · rw [← hv, e2]; simp [PointSource.vecList, s2]
+  · rw [← hv, e3]; simp [PointSource.vecList, s3]
+
+/-- **`_partial`: polar lock, first accepting region a quad.** Same statement when the first
+accepting region is a quadrilateral whose selected roots put the direction at pan-square corner
+`m` (`quad_corner` of C05; the roots come from `np.roots`, a parameter of the C05 model): the
+answer is `e_i` for `i` = channel number `order[m]` of the region. -/
+theorem polar_lock_one_speaker_quad_partial
+    (regions : List (PointSource.Region ℝ)) (n : Nat) (roots : Nat → Option ℝ × Option ℝ) (q : PointSource.Vec3 ℝ)
+    (k : Nat) (hk : k < regions.length) (a b c d : Nat) (Q : PointSource.QuadRegion ℝ)
+    (hreg : regions[k] = .quad [a, b, c, d] Q)
+    (dab : a ≠ b) (dac : a ≠ c) (dad : a ≠ d) (dbc : b ≠ c) (dbd : b ≠ d) (dcd : c ≠ d)
+    (ho : PointSource.isPermOfRange Q.order 4 = true)
+    (x y : ℝ) (m : Nat) (hroots : roots k = (some x, some y))
+    (hm : (x, y, m) ∈ [((0 : ℝ), (0 : ℝ), 0), (1, 0, 1), (1, 1, 2), (0, 1, 3)])
+    (out : List ℝ) (hacc : Q.handle (some x) (some y) q = some out)
+    (hpre : ∀ j, ∀ hj : j < k, regions[j].handle (roots j) q = none) :
+    PointSource.PointSourcePanner.handle regions n roots q =
+      some ((List.replicate n (0 : ℝ)).set ([a, b, c, d].getD (Q.order.getD m 0) 0) 1) := by
+  have hout := PointSource.quad_corner Q q x y m out ho hm hacc
+  have hlt : Q.order.getD m 0 < 4 := by
+    have hm4 : m < 4 := by
+      simp only [List.mem_cons, Prod.mk.injEq, List.mem_nil_iff, or_false] at hm
+      rcases hm with ⟨_, _, rfl⟩ | ⟨_, _, rfl⟩ | ⟨_, _, rfl⟩ | ⟨_, _, rfl⟩ <;> omega
+    simp only [PointSource.isPermOfRange, Bool.and_eq_true, beq_iff_eq, List.all_eq_true, decide_eq_true_eq] at ho
+    have hl : m < Q.order.length := by omega
+    rw [List.getD_eq_getElem?_getD, List.getElem?_eq_getElem hl, Option.getD_some]
+    exact ho.1.2 _ (List.getElem_mem hl)
+  apply panner_first_accept regions n roots q k hk _ hpre
+  rw [hreg]
+  simp only [PointSource.Region.channels, PointSource.Region.handle, PointSource.remap, hroots, hacc, hout,
+    Option.map_some]
+  rw [scatter_quad_unit n a b c d dab dac dad dbc dbd dcd _ hlt]
 
 end Earverif.C13
